@@ -490,6 +490,14 @@ def _strat_apply_unitary_from_unitary(
 def _strat_apply_unitary_from_decompose(val: Any, args: ApplyUnitaryArgs) -> np.ndarray | None:
     from cirq.protocols.has_unitary_protocol import has_unitary
 
+    if args.slices is not None:
+        # Decompose inside the sliced view so that `subspaces` is honored, like the other strategies.
+        sub_args = args._for_operation_with_qid_shape(range(len(args.slices)), args.slices)
+        sub_result = _strat_apply_unitary_from_decompose(val, sub_args)
+        if sub_result is None or sub_result is NotImplemented:
+            return sub_result
+        return _incorporate_result_into_target(args, sub_args, sub_result)
+
     operations, qubits, _ = _try_decompose_into_operations_and_qubits(val)
     if operations is None:
         return NotImplemented
